@@ -106,8 +106,9 @@ def impl_eval(case):
         if s.isdigit() or case.get('seps'):
             c, vn, subs, swaps = expected_edits(s)
             exp = f'ok {ord(c)} {vn} {subs} {swaps}'
-            if s.isdigit():
-                # property: appended digit validates, every substitution rejected, every transposition other than 0/9 rejected
+            if True:
+                # property: appended digit validates, every substitution rejected, every transposition other than 0/9
+                # rejected — for the digits of the number, however it is written (separators do not count)
                 if normal != exp:
                     why = f'normal mode: check digit / validation pattern {normal!r} differs from Luhn {exp!r}'
                 elif opt != exp:
@@ -156,7 +157,8 @@ def explore(run, tier):
         if rng.random() < 0.3:
             t = list(s)
             for _ in range(rng.randrange(1, 4)):
-                t.insert(rng.randrange(0, len(t)), rng.choice(' -'))
+                # the separators people write card numbers with: blank, hyphen, dot, slash, tab, no-break space, ...
+                t.insert(rng.randrange(0, len(t)), rng.choice(' - -./\t\xa0_,:'))
             cases.append({'k': 'edits', 's': ''.join(t), 'seps': True})
         cases.append({'k': 'validate', 's': s})
     for s in ['79927398713', '79927398710', '0', '00', '18', '91', '1', '4444555566667777', '9' * 19, '0' * 16]:
